@@ -7,11 +7,24 @@
 //! or remove anything outside the active project directory, and never touch hidden entries;
 //! viewer sessions, expired sessions and write-disabled mode cannot mutate anything."
 //!
-//! Set-up: every worker owns a sentinel tree (in `/dev/shm` when that is usable — rebuilding the tree
-//! is 20x faster on tmpfs than on the ext4 work directory — otherwise under `ctx.work_dir()`)
+//! SAFETY OF THE MACHINE WE RUN ON. The subject is handed hostile path strings and is expected to
+//! be *broken* when the check is evaluated (a seeded `normalize_workspace_path` regression once
+//! turned the string `\` into `remove_dir_all("/")` on the host). Therefore the subject is NEVER
+//! called in the main process: every case runs in a child process (`tv --worker c19_confine`) that,
+//! before the first case, creates a private directory, `chroot`s into it, `chdir("/")`s, and drops
+//! to uid/gid 65534 with no supplementary groups. The sentinel tree, the detectors and the
+//! snapshots all live inside that jail; the worker only returns verdicts. If any step of entering
+//! the jail fails, the worker reports a machinery error and no case is executed (`execute()`
+//! refuses to run unless the jail flag is set). Inside the jail every path string is executed —
+//! also `/`, `/etc`, `\etc` …: a decoy `/etc/passwd` and the jail root itself are watched
+//! sentinels, so "the subject deleted /etc" is *observed* as `escape-write` instead of happening.
+//!
+//! The jail (= the sentinel tree; paths as seen by the subject):
 //!
 //! ```text
-//! <top>/g5/g4/g3/g2/outer/                 (g5..g2: watched empty levels so that `../../../..` stays inside)
+//! /                                         jail root, watched
+//! /etc/passwd                               decoy sentinel
+//! /g5/g4/g3/g2/outer/                       (g5..g2: watched empty levels so that `../../../..` stays visible)
 //!     secret.txt  secret.st                 sentinel files next to the project
 //!     project2/{other.st, main.st}          sentinel sibling (name has the project dir name as prefix)
 //!     project/                              <- the active project root
@@ -26,7 +39,7 @@
 //!  * escape-read / hidden-read: nothing an operation returns contains sentinel data of those entries
 //!    (unique marker words in their contents, their symbol names, listing paths that resolve outside
 //!    the root or have a dot component); if the file system maintains access times (self-tested per
-//!    tree), no sentinel entry outside / hidden has been read either;
+//!    jail), no sentinel entry outside / hidden has been read either;
 //!  * <who>-mutation: an operation issued with a viewer token, with a token that is not a live
 //!    session, or with `write_enabled = false` leaves the project tree unchanged as well.
 //! An *editor* with write access may change anything inside the non-hidden part of the project; the
@@ -35,9 +48,9 @@
 //!
 //! Change detection: all sentinel entries get atime = mtime = 2001-01-01 when the tree is built, so
 //! one `lstat` per entry (type, mode, nlink, size, inode, mtime; atime for the read clause) detects
-//! every create/remove/rename/write/read independent of timestamp granularity. A full snapshot
-//! (contents) is taken whenever the detector fires, on every replay, and at the end of every chunk
-//! (a difference the detector missed is a machinery error).
+//! every create/remove/rename/write/read independent of timestamp granularity. A full snapshot of
+//! the whole jail (contents) is taken whenever the detector fires, on every replay, and at the end
+//! of every work unit (a difference the detector missed is a machinery error).
 //!
 //! Not covered (said in the report): *expired* sessions — `WebIdeState::with_clock` is
 //! `#[cfg(test)]` and private, the TTL (15 min) and the clock are not configurable through the
@@ -51,18 +64,129 @@
 //! a reasonable reading of the statement allows.
 
 use crate::fw::*;
-use crate::par::par_map;
+use crate::iso::{self, PoolCfg, WorkerFn};
 use serde_json::{json, Value};
 use std::collections::{BTreeMap, HashSet};
 use std::os::unix::fs::MetadataExt;
-use std::path::{Component, Path, PathBuf};
-use std::sync::atomic::{AtomicUsize, Ordering};
+use std::path::{Path, PathBuf};
+use std::sync::atomic::{AtomicBool, Ordering};
 use std::sync::Mutex;
 use std::time::{Duration, Instant};
 use trust_runtime::web::ide::{IdeError, IdeRole, WebIdeState};
 
+/// Name of the crash-isolated, jailed worker (`tv --worker c19_confine`).
+pub const WORKER: &str = "c19_confine";
+const ENV_JAIL_BASE: &str = "TV_C19_JAIL_BASE";
+const NOBODY: u32 = 65534;
+
 // -------------------------------------------------------------------------------------------------
-// sentinel tree
+// the jail
+// -------------------------------------------------------------------------------------------------
+
+/// Set once the process is chroot-ed and unprivileged. `execute()` refuses to call the subject
+/// while it is false.
+static JAILED: AtomicBool = AtomicBool::new(false);
+/// (device, inode) of the jail root as seen right after chroot; `/` must stay this directory.
+static JAIL_ROOT: Mutex<Option<(u64, u64)>> = Mutex::new(None);
+
+fn root_id() -> Option<(u64, u64)> {
+    std::fs::symlink_metadata("/").ok().map(|m| (m.dev(), m.ino()))
+}
+
+fn os_err(what: &str) -> String {
+    format!("jail: {what} failed: {}", std::io::Error::last_os_error())
+}
+
+/// chroot into a fresh private directory below `base`, chdir("/"), drop to nobody. Every step is
+/// verified; any failure is an error (the caller then refuses to run cases).
+fn enter_jail(base: &str) -> Result<(), String> {
+    use std::os::unix::ffi::OsStrExt;
+    if JAILED.load(Ordering::SeqCst) {
+        return Ok(());
+    }
+    if base.is_empty() {
+        return Err(format!("jail: {ENV_JAIL_BASE} is not set"));
+    }
+    let top = PathBuf::from(base).join(format!("jail-{}", std::process::id()));
+    let _ = std::fs::remove_dir_all(&top);
+    std::fs::create_dir_all(&top).map_err(|e| format!("jail: cannot create {}: {e}", top.display()))?;
+    let c = std::ffi::CString::new(top.as_os_str().as_bytes()).map_err(|e| format!("jail: {e}"))?;
+    let root = std::ffi::CString::new("/").unwrap();
+    // SAFETY: plain libc calls with valid NUL-terminated strings / null pointers where allowed.
+    unsafe {
+        if libc::chown(c.as_ptr(), NOBODY, NOBODY) != 0 {
+            return Err(os_err("chown(jail)"));
+        }
+        if libc::chmod(c.as_ptr(), 0o755) != 0 {
+            return Err(os_err("chmod(jail)"));
+        }
+        if libc::chroot(c.as_ptr()) != 0 {
+            return Err(os_err("chroot"));
+        }
+        if libc::chdir(root.as_ptr()) != 0 {
+            return Err(os_err("chdir(/)"));
+        }
+        if libc::setgroups(0, std::ptr::null()) != 0 {
+            return Err(os_err("setgroups(0)"));
+        }
+        if libc::setgid(NOBODY) != 0 {
+            return Err(os_err("setgid"));
+        }
+        if libc::setuid(NOBODY) != 0 {
+            return Err(os_err("setuid"));
+        }
+        if libc::getuid() != NOBODY || libc::geteuid() != NOBODY || libc::getgid() != NOBODY || libc::getegid() != NOBODY {
+            return Err("jail: still privileged after setuid/setgid".into());
+        }
+        if libc::setuid(0) == 0 || libc::seteuid(0) == 0 {
+            return Err("jail: privileges can be regained".into());
+        }
+    }
+    // the new root must be our empty private directory, not the host
+    for host in ["/proc", "/usr", "/bin", "/lib", "/root", "/home", "/verif", "/repo", "/dev"] {
+        if Path::new(host).symlink_metadata().is_ok() {
+            return Err(format!("jail: {host} is visible after chroot"));
+        }
+    }
+    match std::fs::read_dir("/") {
+        Ok(rd) => {
+            if rd.count() != 0 {
+                return Err("jail: the new root is not empty".into());
+            }
+        }
+        Err(e) => return Err(format!("jail: cannot list the new root: {e}")),
+    }
+    match std::env::current_dir() {
+        Ok(d) if d == Path::new("/") => {}
+        other => return Err(format!("jail: unexpected working directory {other:?}")),
+    }
+    let Some(id) = root_id() else { return Err("jail: cannot stat the new root".into()) };
+    *JAIL_ROOT.lock().unwrap_or_else(|p| p.into_inner()) = Some(id);
+    JAILED.store(true, Ordering::SeqCst);
+    Ok(())
+}
+
+/// Belt and braces, checked before every work unit.
+fn still_jailed() -> Result<(), String> {
+    if !JAILED.load(Ordering::SeqCst) {
+        return Err("jail: not entered".into());
+    }
+    // SAFETY: getters without arguments.
+    let (u, g) = unsafe { (libc::geteuid(), libc::getegid()) };
+    if u != NOBODY || g != NOBODY {
+        return Err(format!("jail: running as uid {u} gid {g}"));
+    }
+    // `/` must still be the private directory we chroot-ed into (a broken subject may create any
+    // name inside the jail, so names prove nothing; the root's identity does)
+    let expect = *JAIL_ROOT.lock().unwrap_or_else(|p| p.into_inner());
+    if expect.is_none() || root_id() != expect {
+        return Err("jail: `/` is not the jail root".into());
+    }
+    Ok(())
+}
+
+// -------------------------------------------------------------------------------------------------
+// sentinel tree (paths relative to the jail root)
 // -------------------------------------------------------------------------------------------------
 
 /// 2001-01-01T00:00:00Z — every sentinel entry gets this atime/mtime.
@@ -71,6 +195,8 @@ const OLD_SECS: i64 = 978_307_200;
 const OUTER_REL: &str = "g5/g4/g3/g2/outer";
 const PROJECT_REL: &str = "g5/g4/g3/g2/outer/project";
 const P2_REL: &str = "g5/g4/g3/g2/outer/project2";
+const OUTER_ABS: &str = "/g5/g4/g3/g2/outer";
+const PROJECT_ABS: &str = "/g5/g4/g3/g2/outer/project";
 
 const EDITOR_PAYLOAD: &str = "(* ZQEDITORPAYLOAD *)\nPROGRAM ZqInEdited\nEND_PROGRAM\n";
 const UNKNOWN_TOKEN: &str = "c19-confine-token-that-was-never-issued";
@@ -79,7 +205,7 @@ const UNKNOWN_TOKEN: &str = "c19-confine-token-that-was-never-issued";
 enum Layout {
     /// with `project/link -> ../project2`
     Full,
-    /// without the symlink (the analysis operations refuse to work at all when it is present)
+    /// without the symlink
     NoLink,
 }
 
@@ -97,6 +223,12 @@ impl Layout {
             Layout::Full
         }
     }
+    fn idx(self) -> usize {
+        match self {
+            Layout::Full => 0,
+            Layout::NoLink => 1,
+        }
+    }
 }
 
 #[derive(Clone, Copy, PartialEq, Eq, Debug)]
@@ -112,54 +244,59 @@ enum Kind {
     Link(&'static str),
 }
 
-/// (path relative to `outer`, kind). Order: parents before children.
-fn outer_spec(layout: Layout) -> Vec<(&'static str, Kind)> {
-    let mut v = vec![
-        ("secret.txt", Kind::File("ZQOUTUPTXT top secret\n")),
-        (
-            "secret.st",
-            Kind::File("(* ZQOUTUPST *)\nPROGRAM ZqOutUpSt\nVAR\n    zqoutupvar : INT;\nEND_VAR\nEND_PROGRAM\n"),
-        ),
-        ("project2", Kind::Dir),
-        (
-            "project2/other.st",
-            Kind::File("(* ZQOUTP2OTHER *)\nFUNCTION ZqOutP2Other : INT\nVAR_INPUT\n    x : INT;\nEND_VAR\nZqOutP2Other := x;\nEND_FUNCTION\n"),
-        ),
-        (
-            "project2/main.st",
-            Kind::File("(* ZQOUTP2MAIN *)\nPROGRAM ZqOutP2Main\nEND_PROGRAM\n"),
-        ),
-        ("project", Kind::Dir),
-        (
-            "project/main.st",
-            // line 4, character 12 is on `ZqInHelper`
-            Kind::File("PROGRAM Main\nVAR\n    counter : INT;\nEND_VAR\ncounter := ZqInHelper(counter);\nEND_PROGRAM\n"),
-        ),
-        ("project/a b.st", Kind::File("(* ZQINSPACE *)\nPROGRAM ZqInSpace\nEND_PROGRAM\n")),
-        ("project/ü.st", Kind::File("(* ZQINUML *)\nPROGRAM ZqInUml\nEND_PROGRAM\n")),
-        ("project/sub", Kind::Dir),
-        (
-            "project/sub/a.st",
-            Kind::File("FUNCTION ZqInHelper : INT\nVAR_INPUT\n    x : INT;\nEND_VAR\nZqInHelper := x + 1;\nEND_FUNCTION\n"),
-        ),
-        ("project/.hidden", Kind::Dir),
-        (
-            "project/.hidden/h.st",
-            Kind::File("(* ZQHIDDENH *)\nPROGRAM ZqHiddenH\nVAR\n    v : INT;\nEND_VAR\nv := ZqInHelper(v);\nEND_PROGRAM\n"),
-        ),
-        ("project/.env", Kind::File("ZQHIDDENENV=1\n")),
+/// (path relative to the jail root, kind). Order: parents before children.
+fn tree_spec(layout: Layout) -> Vec<(String, Kind)> {
+    let mut v: Vec<(String, Kind)> = vec![
+        ("etc".into(), Kind::Dir),
+        ("etc/passwd".into(), Kind::File("ZQOUTETCPASSWD root:x:0:0:root:/root:/bin/sh\n")),
+        ("g5".into(), Kind::Dir),
+        ("g5/g4".into(), Kind::Dir),
+        ("g5/g4/g3".into(), Kind::Dir),
+        ("g5/g4/g3/g2".into(), Kind::Dir),
+        (OUTER_REL.into(), Kind::Dir),
     ];
+    let o = |rel: &str, k: Kind| (format!("{OUTER_REL}/{rel}"), k);
+    v.push(o("secret.txt", Kind::File("ZQOUTUPTXT top secret\n")));
+    v.push(o(
+        "secret.st",
+        Kind::File("(* ZQOUTUPST *)\nPROGRAM ZqOutUpSt\nVAR\n    zqoutupvar : INT;\nEND_VAR\nEND_PROGRAM\n"),
+    ));
+    v.push(o("project2", Kind::Dir));
+    v.push(o(
+        "project2/other.st",
+        Kind::File("(* ZQOUTP2OTHER *)\nFUNCTION ZqOutP2Other : INT\nVAR_INPUT\n    x : INT;\nEND_VAR\nZqOutP2Other := x;\nEND_FUNCTION\n"),
+    ));
+    v.push(o("project2/main.st", Kind::File("(* ZQOUTP2MAIN *)\nPROGRAM ZqOutP2Main\nEND_PROGRAM\n")));
+    v.push(o("project", Kind::Dir));
+    // line 4, character 12 of main.st is on `ZqInHelper`
+    v.push(o(
+        "project/main.st",
+        Kind::File("PROGRAM Main\nVAR\n    counter : INT;\nEND_VAR\ncounter := ZqInHelper(counter);\nEND_PROGRAM\n"),
+    ));
+    v.push(o("project/a b.st", Kind::File("(* ZQINSPACE *)\nPROGRAM ZqInSpace\nEND_PROGRAM\n")));
+    v.push(o("project/ü.st", Kind::File("(* ZQINUML *)\nPROGRAM ZqInUml\nEND_PROGRAM\n")));
+    v.push(o("project/sub", Kind::Dir));
+    v.push(o(
+        "project/sub/a.st",
+        Kind::File("FUNCTION ZqInHelper : INT\nVAR_INPUT\n    x : INT;\nEND_VAR\nZqInHelper := x + 1;\nEND_FUNCTION\n"),
+    ));
+    v.push(o("project/.hidden", Kind::Dir));
+    v.push(o(
+        "project/.hidden/h.st",
+        Kind::File("(* ZQHIDDENH *)\nPROGRAM ZqHiddenH\nVAR\n    v : INT;\nEND_VAR\nv := ZqInHelper(v);\nEND_PROGRAM\n"),
+    ));
+    v.push(o("project/.env", Kind::File("ZQHIDDENENV=1\n")));
     if layout == Layout::Full {
-        v.push(("project/link", Kind::Link("../project2")));
+        v.push(o("project/link", Kind::Link("../project2")));
     }
     v
 }
 
-fn zone_of(rel_top: &str) -> Zone {
-    if rel_top == PROJECT_REL {
+fn zone_of(rel: &str) -> Zone {
+    if rel == PROJECT_REL {
         return Zone::Project;
     }
-    match rel_top.strip_prefix(PROJECT_REL).and_then(|r| r.strip_prefix('/')) {
+    match rel.strip_prefix(PROJECT_REL).and_then(|r| r.strip_prefix('/')) {
         Some(rest) => {
             if rest.starts_with('.') {
                 Zone::Hidden
@@ -169,6 +306,13 @@ fn zone_of(rel_top: &str) -> Zone {
         }
         None => Zone::Outside,
     }
+}
+
+fn short(rel: &str) -> &str {
+    if rel.is_empty() {
+        return "/ (jail root)";
+    }
+    rel.strip_prefix("g5/g4/g3/g2/").unwrap_or(rel)
 }
 
 #[derive(Clone, PartialEq, Eq, Debug)]
@@ -214,14 +358,13 @@ impl FastDiff {
     }
 }
 
+/// The sentinel tree = the whole jail.
 struct Tree {
     top: PathBuf,
     layout: Layout,
-    outer: PathBuf,
     project: PathBuf,
-    canon_project: PathBuf,
     watched: Vec<Watched>,
-    pristine: Snapshot,
+    pristine: [Option<Snapshot>; 2],
     dirty: bool,
     atime_ok: bool,
     /// listing a directory moves the directory's access time as well
@@ -294,7 +437,7 @@ fn snapshot_into(dir: &Path, rel: &str, out: &mut Snapshot) {
     }
 }
 
-/// (sign, path relative to top, zone); sign '+' new, '-' gone, '~' changed
+/// (sign, path relative to the jail root, zone); sign '+' new, '-' gone, '~' changed
 fn diff_snap(a: &Snapshot, b: &Snapshot) -> Vec<(char, String, Zone)> {
     let mut d = Vec::new();
     for (k, v) in a {
@@ -312,52 +455,66 @@ fn diff_snap(a: &Snapshot, b: &Snapshot) -> Vec<(char, String, Zone)> {
     d
 }
 
-static TREE_SEQ: AtomicUsize = AtomicUsize::new(0);
-
 impl Tree {
-    fn new(base: &Path, layout: Layout) -> Result<Tree, String> {
-        let id = TREE_SEQ.fetch_add(1, Ordering::Relaxed);
-        let top = base.join(format!("t{id}-{}", layout.as_str()));
-        let _ = std::fs::remove_dir_all(&top);
-        std::fs::create_dir_all(&top).map_err(|e| io_err("mkdir", &top, e))?;
-        let top = top.canonicalize().map_err(|e| io_err("canonicalize", &top, e))?;
+    /// Only callable inside the jail: the tree is built at `/`.
+    fn new() -> Result<Tree, String> {
+        still_jailed()?;
+        let top = PathBuf::from("/");
         let mut t = Tree {
-            outer: top.join(OUTER_REL),
             project: top.join(PROJECT_REL),
-            canon_project: top.join(PROJECT_REL),
             top,
-            layout,
+            layout: Layout::Full,
             watched: Vec::new(),
-            pristine: Snapshot::new(),
+            pristine: [None, None],
             dirty: false,
             atime_ok: false,
             atime_dir_ok: false,
             rebuilds: 0,
         };
-        t.build()?;
-        t.pristine = t.snapshot();
-        // the snapshot read the files: start again from fresh stamps
-        t.build()?;
+        t.set_layout(Layout::Full)?;
         t.self_test()?;
         Ok(t)
     }
 
-    fn build(&mut self) -> Result<(), String> {
-        let g5 = self.top.join("g5");
-        if g5.symlink_metadata().is_ok() {
-            // a subject may have removed permissions; best effort
-            std::fs::remove_dir_all(&g5).map_err(|e| io_err("remove_dir_all", &g5, e))?;
+    fn pristine(&self) -> &Snapshot {
+        self.pristine[self.layout.idx()].as_ref().expect("pristine snapshot")
+    }
+
+    /// Switches the layout (rebuilds) and makes sure its pristine snapshot exists.
+    fn set_layout(&mut self, layout: Layout) -> Result<(), String> {
+        if self.layout != layout || self.watched.is_empty() {
+            self.layout = layout;
+            self.build()?;
         }
-        std::fs::create_dir_all(&self.outer).map_err(|e| io_err("mkdir", &self.outer, e))?;
-        let mut all: Vec<String> = vec!["g5".into(), "g5/g4".into(), "g5/g4/g3".into(), "g5/g4/g3/g2".into(), OUTER_REL.into()];
-        for (rel, kind) in outer_spec(self.layout) {
-            let p = self.outer.join(rel);
+        if self.pristine[layout.idx()].is_none() {
+            self.build()?;
+            let s = self.snapshot();
+            self.pristine[layout.idx()] = Some(s);
+            // the snapshot read the files: start again from fresh stamps
+            self.build()?;
+        }
+        Ok(())
+    }
+
+    /// Empties the jail and builds the tree of the current layout.
+    fn build(&mut self) -> Result<(), String> {
+        still_jailed()?;
+        let rd = std::fs::read_dir(&self.top).map_err(|e| io_err("read_dir", &self.top, e))?;
+        for e in rd.flatten() {
+            let p = e.path();
+            let is_dir = e.file_type().map(|t| t.is_dir()).unwrap_or(false);
+            let r = if is_dir { std::fs::remove_dir_all(&p) } else { std::fs::remove_file(&p) };
+            r.map_err(|e| io_err("remove", &p, e))?;
+        }
+        let mut all: Vec<String> = vec![String::new()];
+        for (rel, kind) in tree_spec(self.layout) {
+            let p = self.top.join(&rel);
             match kind {
                 Kind::Dir => std::fs::create_dir(&p).map_err(|e| io_err("mkdir", &p, e))?,
                 Kind::File(c) => std::fs::write(&p, c).map_err(|e| io_err("write", &p, e))?,
                 Kind::Link(t) => std::os::unix::fs::symlink(t, &p).map_err(|e| io_err("symlink", &p, e))?,
             }
-            all.push(format!("{OUTER_REL}/{rel}"));
+            all.push(rel);
         }
         for rel in &all {
             stamp_old(&self.top.join(rel))?;
@@ -429,9 +586,13 @@ impl Tree {
             .iter()
             .enumerate()
             .filter(|(i, _)| mask & (1 << i) != 0)
-            .map(|(_, w)| w.rel.strip_prefix("g5/g4/g3/g2/").unwrap_or(&w.rel))
+            .map(|(_, w)| short(&w.rel))
             .collect();
         v.join(", ")
+    }
+
+    fn bit_of(&self, rel: &str) -> u32 {
+        self.watched.iter().position(|w| w.rel == rel).map(|i| 1u32 << i).unwrap_or(0)
     }
 
     /// Is one of the entries in `mask` inside the symlink target `project2`?
@@ -442,23 +603,22 @@ impl Tree {
             .any(|(i, w)| mask & (1 << i) != 0 && w.rel.starts_with(P2_REL))
     }
 
-    /// The detector must see a content change of equal size, a create+remove in a directory and
-    /// (if the file system maintains access times) a read.
+    /// The detector must see a content change of equal size, a create+remove in a directory, the
+    /// loss of the decoy and (if the file system maintains access times) a read.
     fn self_test(&mut self) -> Result<(), String> {
         if !self.fast_check().clean() {
             return Err("sentinel tree: change detector fires on an untouched tree".into());
         }
-        let secret = self.outer.join("secret.txt");
+        let secret = self.top.join(OUTER_REL).join("secret.txt");
         let _ = std::fs::read(&secret);
         let d = self.fast_check();
         self.atime_ok = d.out_r != 0;
         if d.out_w != 0 {
             return Err("sentinel tree: a read looks like a write".into());
         }
-        let _ = std::fs::read_dir(self.outer.join("project2")).map(|rd| rd.count());
+        let _ = std::fs::read_dir(self.top.join(P2_REL)).map(|rd| rd.count());
         let d = self.fast_check();
-        self.atime_dir_ok = self.atime_ok
-            && self.watched.iter().enumerate().any(|(i, w)| w.rel == P2_REL && d.out_r & (1 << i) != 0);
+        self.atime_dir_ok = self.atime_ok && d.out_r & self.bit_of(P2_REL) != 0;
         std::fs::write(&secret, "zqoutuptxt TOP SECRET\n").map_err(|e| io_err("write", &secret, e))?;
         if self.fast_check().out_w == 0 {
             return Err("sentinel tree: change detector missed an equal-size overwrite".into());
@@ -477,17 +637,18 @@ impl Tree {
             return Err("sentinel tree: change detector missed the removal of a hidden file".into());
         }
         self.build()?;
-        if self.snapshot() != self.pristine {
+        let etc = self.top.join("etc");
+        std::fs::remove_dir_all(&etc).map_err(|e| io_err("rm -r", &etc, e))?;
+        let d = self.fast_check();
+        if d.out_w & self.bit_of("") == 0 || d.out_w & self.bit_of("etc/passwd") == 0 {
+            return Err("sentinel tree: change detector missed the removal of /etc".into());
+        }
+        self.build()?;
+        if &self.snapshot() != self.pristine() {
             return Err("sentinel tree: rebuild is not identical to the first build".into());
         }
         self.build()?;
         Ok(())
-    }
-}
-
-impl Drop for Tree {
-    fn drop(&mut self) {
-        let _ = std::fs::remove_dir_all(&self.top);
     }
 }
 
@@ -613,7 +774,8 @@ impl Sess {
 #[derive(Clone, Debug)]
 struct Case {
     op: Op,
-    /// path (or query for search / symbols); may contain the placeholders `{OUTER}`, `{PROJECT}`
+    /// path as handed to the subject (or query for search / symbols); absolute strings are
+    /// absolute inside the jail
     p1: String,
     /// rename_entry: new path; workspace_search: include glob ("" = none)
     p2: String,
@@ -644,14 +806,6 @@ impl Case {
             layout: Layout::parse(v["layout"].as_str().unwrap_or("full")),
         })
     }
-}
-
-fn subst(p: &str, tree: &Tree) -> String {
-    if !p.contains('{') {
-        return p.to_string();
-    }
-    p.replace("{OUTER}", &tree.outer.to_string_lossy())
-        .replace("{PROJECT}", &tree.project.to_string_lossy())
 }
 
 fn show(p: &str) -> String {
@@ -734,7 +888,7 @@ fn decorate(comps: &[&str], joiner: &str, deco: Deco) -> Option<String> {
         Deco::DotSlash => format!("./{base}"),
         Deco::Spaces => format!(" {base} "),
         Deco::LeadSlash => format!("/{base}"),
-        Deco::AbsOuter => format!("{{OUTER}}/{base}"),
+        Deco::AbsOuter => format!("{OUTER_ABS}/{base}"),
         Deco::Drive => format!("C:\\{base}"),
         Deco::UrlEnc => {
             if !comps.contains(&"..") {
@@ -746,10 +900,38 @@ fn decorate(comps: &[&str], joiner: &str, deco: Deco) -> Option<String> {
     })
 }
 
+/// Hand-picked strings that aim at the jail root and the decoy `/etc` in Unix, Windows and URL
+/// spelling (the generated strings already contain `/`, `\`, `\\`, `/..`, `\..` …).
+const EXTRA_STRINGS: &[&str] = &[
+    "/etc",
+    "/etc/passwd",
+    "\\etc",
+    "\\etc\\passwd",
+    "\\etc\\..",
+    "/etc/..",
+    "C:\\etc",
+    "%2fetc",
+    "%5cetc",
+    "..\\secret.st",
+    "sub\\..\\..\\secret.st",
+    "..\\..\\..\\..\\..\\etc\\passwd",
+    "../../../../../etc/passwd",
+    "\\g5\\g4\\g3\\g2\\outer\\secret.st",
+    "\\g5\\g4\\g3\\g2\\outer\\project2\\main.st",
+    "\\g5\\g4\\g3\\g2\\outer\\project\\.env",
+];
+
+fn hash_str(s: &str) -> u64 {
+    use std::hash::{Hash, Hasher};
+    let mut h = std::collections::hash_map::DefaultHasher::new();
+    s.hash(&mut h);
+    h.finish()
+}
+
 /// All path strings, simplest first (fewer components, then plain before decorated, `/` before the
 /// other joiners), without duplicates. `levels[n-1]` = size of the menu prefix used for sequences
-/// of n components.
-fn path_strings(levels: &[usize]) -> Vec<String> {
+/// of n components. The hand-picked strings follow the one-component level.
+fn path_strings(levels: &[usize], with_extras: bool) -> Vec<String> {
     let m = menu();
     let mut seen: HashSet<u64> = HashSet::new();
     let mut out = Vec::new();
@@ -767,13 +949,17 @@ fn path_strings(levels: &[usize]) -> Vec<String> {
                         idx /= msize;
                     }
                     if let Some(s) = decorate(&comps, joiner, deco) {
-                        use std::hash::{Hash, Hasher};
-                        let mut h = std::collections::hash_map::DefaultHasher::new();
-                        s.hash(&mut h);
-                        if seen.insert(h.finish()) {
+                        if seen.insert(hash_str(&s)) {
                             out.push(s);
                         }
                     }
+                }
+            }
+        }
+        if n == 1 && with_extras {
+            for s in EXTRA_STRINGS {
+                if seen.insert(hash_str(s)) {
+                    out.push(s.to_string());
                 }
             }
         }
@@ -786,8 +972,11 @@ fn path_strings(levels: &[usize]) -> Vec<String> {
 fn tags(p: &str, layout: Layout) -> String {
     let t = p.trim();
     let mut v: Vec<&str> = Vec::new();
-    if t.starts_with("{OUTER}") || t.starts_with("{PROJECT}") || t.starts_with('/') {
+    if t.starts_with('/') {
         v.push("absolute");
+    }
+    if t.starts_with('\\') {
+        v.push("backslash-lead");
     }
     if t.starts_with("C:\\") {
         v.push("drive-prefix");
@@ -798,28 +987,36 @@ fn tags(p: &str, layout: Layout) -> String {
     } else if t.split(['/', '\\']).any(|c| c == "..") {
         v.push("backslash-dotdot");
     }
-    if t.to_ascii_lowercase().contains("%2e") {
-        v.push("urlenc-dot");
+    let lc = t.to_ascii_lowercase();
+    if lc.contains("%2e") || lc.contains("%2f") || lc.contains("%5c") {
+        v.push("urlenc");
     }
     if comps.iter().any(|c| c.starts_with('.') && *c != "." && *c != "..") {
         v.push("hidden-component");
     } else if comps.iter().any(|c| !c.starts_with('.') && c.trim_start().starts_with('.')) {
         v.push("padded-dot");
     }
-    if layout == Layout::Full && !v.contains(&"absolute") {
-        // lexical walk: does the path go through / name the project's symlink?
-        let mut stack: Vec<&str> = Vec::new();
-        for c in &comps {
-            match *c {
-                "" | "." => {}
-                ".." => {
-                    stack.pop();
+    if layout == Layout::Full {
+        // lexical walk relative to the project: does the path go through / name the project's symlink?
+        let rel = match t.strip_prefix(PROJECT_ABS) {
+            Some(r) if r.is_empty() || r.starts_with('/') => Some(r),
+            _ if t.starts_with('/') => None,
+            _ => Some(t),
+        };
+        if let Some(rel) = rel {
+            let mut stack: Vec<&str> = Vec::new();
+            for c in rel.split('/') {
+                match c {
+                    "" | "." => {}
+                    ".." => {
+                        stack.pop();
+                    }
+                    c => stack.push(c),
                 }
-                c => stack.push(c),
             }
-        }
-        if stack.first() == Some(&"link") {
-            v.push(if stack.len() > 1 { "symlink-dir" } else { "symlink-entry" });
+            if stack.first() == Some(&"link") {
+                v.push(if stack.len() > 1 { "symlink-dir" } else { "symlink-entry" });
+            }
         }
     }
     if t.contains('\0') {
@@ -828,9 +1025,16 @@ fn tags(p: &str, layout: Layout) -> String {
     // Windows / URL syntax can only be the cause where nothing stronger is present (a path with a
     // real `..`, a dot component, the symlink ... is explained by that), so the weak tags are kept
     // only when they stand alone; this keeps one defect from fanning out into many signatures.
-    const WEAK: &[&str] = &["drive-prefix", "backslash-dotdot", "urlenc-dot", "padded-dot"];
+    // Of several weak tags only the most telling one is kept (priority order below).
+    const WEAK: &[&str] = &["backslash-dotdot", "backslash-lead", "drive-prefix", "backslash", "urlenc", "padded-dot"];
+    if t.contains('\\') && !v.iter().any(|x| x.starts_with("backslash") || *x == "drive-prefix") {
+        v.push("backslash");
+    }
     if v.iter().any(|t| !WEAK.contains(t)) {
         v.retain(|t| !WEAK.contains(t));
+    } else if v.len() > 1 {
+        let best = WEAK.iter().copied().find(|w| v.contains(w)).unwrap_or(v[0]);
+        v = vec![best];
     }
     if v.is_empty() {
         "plain".to_string()
@@ -839,59 +1043,16 @@ fn tags(p: &str, layout: Layout) -> String {
     }
 }
 
-/// Lexical target of an absolute path string (no symlink resolution).
-fn lexical_abs(t: &str) -> PathBuf {
-    let mut out = PathBuf::from("/");
-    for c in Path::new(t).components() {
-        match c {
-            Component::Normal(x) => out.push(x),
-            Component::ParentDir => {
-                out.pop();
-            }
-            _ => {}
-        }
-    }
-    out
-}
-
-/// Guard for the machine we run on: an absolute path string that (lexically) names something that
-/// exists outside our own tree is never handed to the subject (a broken subject could delete or
-/// overwrite it). Returns Err(()) = skip the case, Ok(Some(p)) = `p` is the shallowest ancestor of
-/// the target that does not exist yet (to be checked and cleaned up after the operation).
-fn host_guard(p: &str, tree: &Tree) -> Result<Option<PathBuf>, ()> {
-    let t = p.trim();
-    if !t.starts_with('/') {
-        return Ok(None);
-    }
-    if t.contains('\0') {
-        return Ok(None);
-    }
-    let target = lexical_abs(t);
-    if target.starts_with(tree.top.join("g5")) {
-        return Ok(None);
-    }
-    if target.symlink_metadata().is_ok() {
-        return Err(());
-    }
-    let mut probe = target.clone();
-    while let Some(parent) = probe.parent() {
-        if parent.symlink_metadata().is_ok() {
-            break;
-        }
-        probe = parent.to_path_buf();
-    }
-    Ok(Some(probe))
-}
-
 // -------------------------------------------------------------------------------------------------
-// executing one case on the real code
+// executing one case on the real code (inside the jail only)
 // -------------------------------------------------------------------------------------------------
 
 fn to_v<T: serde::Serialize>(t: T) -> Value {
     serde_json::to_value(t).unwrap_or(Value::Null)
 }
 
-fn run_op(st: &WebIdeState, tok: &str, c: &Case, p1: &str, p2: &str) -> Result<Value, IdeError> {
+fn run_op(st: &WebIdeState, tok: &str, c: &Case) -> Result<Value, IdeError> {
+    let (p1, p2) = (c.p1.as_str(), c.p2.as_str());
     // `Position` of trust-wasm-analysis is not re-exported; it is `Deserialize`.
     macro_rules! pos {
         () => {
@@ -951,9 +1112,9 @@ struct Outcome {
     panic: Option<String>,
 }
 
-fn execute(tree: &Tree, c: &Case) -> Outcome {
-    let p1 = subst(&c.p1, tree);
-    let p2 = subst(&c.p2, tree);
+/// The ONLY place where the subject is called. Refuses to run outside the jail.
+fn execute(tree: &Tree, c: &Case) -> Result<Outcome, String> {
+    still_jailed()?;
     let project = tree.project.clone();
     let r = catch(|| {
         let st = WebIdeState::new(Some(project));
@@ -963,11 +1124,11 @@ fn execute(tree: &Tree, c: &Case) -> Outcome {
             Sess::Unknown => Ok(UNKNOWN_TOKEN.to_string()),
         };
         match tok {
-            Ok(tok) => run_op(&st, &tok, c, &p1, &p2),
+            Ok(tok) => run_op(&st, &tok, c),
             Err(e) => Err(e),
         }
     });
-    match r {
+    Ok(match r {
         Err(m) => Outcome { kind: "panic".into(), text: String::new(), paths: Vec::new(), panic: Some(m) },
         Ok(Err(e)) => Outcome {
             kind: format!("{:?}", e.kind()),
@@ -986,7 +1147,7 @@ fn execute(tree: &Tree, c: &Case) -> Outcome {
             }
             Outcome { kind: "ok".into(), text: v.to_string().to_lowercase(), paths, panic: None }
         }
-    }
+    })
 }
 
 // -------------------------------------------------------------------------------------------------
@@ -1002,33 +1163,52 @@ fn norm_msg(m: &str) -> String {
 struct Stats {
     evaluations: u64,
     nontrivial: u64,
-    skipped_host_guard: u64,
     full_snapshots: u64,
     confirm_runs: u64,
-    /// (operation, outcome kind) -> count
-    outcomes: BTreeMap<(Op, String), u64>,
+    /// "operation|outcome kind" -> count
+    outcomes: BTreeMap<String, u64>,
     /// operation -> cases in which an editor legitimately changed the project
-    editor_changes: BTreeMap<Op, u64>,
+    editor_changes: BTreeMap<String, u64>,
     /// operation -> cases answered Ok for a viewer (read side is alive)
-    viewer_ok: BTreeMap<Op, u64>,
+    viewer_ok: BTreeMap<String, u64>,
+}
+
+fn map_to_json(m: &BTreeMap<String, u64>) -> Value {
+    let mut o = serde_json::Map::new();
+    for (k, v) in m {
+        o.insert(k.clone(), json!(v));
+    }
+    Value::Object(o)
+}
+
+fn merge_map(into: &mut BTreeMap<String, u64>, v: &Value) {
+    if let Some(o) = v.as_object() {
+        for (k, n) in o {
+            *into.entry(k.clone()).or_insert(0) += n.as_u64().unwrap_or(0);
+        }
+    }
 }
 
 impl Stats {
-    fn merge(&mut self, o: Stats) {
-        self.evaluations += o.evaluations;
-        self.nontrivial += o.nontrivial;
-        self.skipped_host_guard += o.skipped_host_guard;
-        self.full_snapshots += o.full_snapshots;
-        self.confirm_runs += o.confirm_runs;
-        for (k, v) in o.outcomes {
-            *self.outcomes.entry(k).or_insert(0) += v;
-        }
-        for (k, v) in o.editor_changes {
-            *self.editor_changes.entry(k).or_insert(0) += v;
-        }
-        for (k, v) in o.viewer_ok {
-            *self.viewer_ok.entry(k).or_insert(0) += v;
-        }
+    fn to_json(&self) -> Value {
+        json!({
+            "evaluations": self.evaluations,
+            "nontrivial": self.nontrivial,
+            "full_snapshots": self.full_snapshots,
+            "confirm_runs": self.confirm_runs,
+            "outcomes": map_to_json(&self.outcomes),
+            "editor_changes": map_to_json(&self.editor_changes),
+            "viewer_ok": map_to_json(&self.viewer_ok),
+        })
+    }
+    fn merge_json(&mut self, v: &Value) {
+        self.evaluations += v["evaluations"].as_u64().unwrap_or(0);
+        self.nontrivial += v["nontrivial"].as_u64().unwrap_or(0);
+        self.full_snapshots += v["full_snapshots"].as_u64().unwrap_or(0);
+        self.confirm_runs += v["confirm_runs"].as_u64().unwrap_or(0);
+        merge_map(&mut self.outcomes, &v["outcomes"]);
+        merge_map(&mut self.editor_changes, &v["editor_changes"]);
+        merge_map(&mut self.viewer_ok, &v["viewer_ok"]);
     }
 }
 
@@ -1037,7 +1217,7 @@ fn describe_diff(d: &[(char, String, Zone)], zone: Zone) -> String {
         .iter()
         .filter(|x| x.2 == zone)
         .take(4)
-        .map(|(s, p, _)| format!("{s}{}", p.strip_prefix("g5/g4/g3/g2/").unwrap_or(p)))
+        .map(|(s, p, _)| format!("{s}{}", short(p)))
         .collect();
     v.join(" ")
 }
@@ -1088,50 +1268,22 @@ fn lexical_rel(p: &str) -> String {
     v.join("/")
 }
 
-/// Removes entries the subject created on the host outside our tree (they did not exist before the
-/// operation, see `host_guard`).
-fn remove_host_entries(list: &[PathBuf]) {
-    for h in list {
-        let Ok(md) = h.symlink_metadata() else { continue };
-        let _ = if md.is_dir() { std::fs::remove_dir_all(h) } else { std::fs::remove_file(h) };
-    }
-}
-
 struct Eval {
     violations: Vec<Violation>,
     outcome_kind: String,
-    skipped: bool,
 }
 
 /// Executes one case on a pristine tree and applies every oracle clause. `replay` = take the full
 /// snapshot unconditionally.
 fn eval_case(tree: &mut Tree, c: &Case, replay: bool, stats: &mut Stats) -> Result<Eval, String> {
+    tree.set_layout(c.layout)?;
     tree.ensure_pristine()?;
-    let mut probes = Vec::new();
-    for p in [&c.p1, &c.p2] {
-        if c.op.p1_is_path() && !c.op.is_picker() {
-            match host_guard(&subst(p, tree), tree) {
-                Err(()) => {
-                    stats.skipped_host_guard += 1;
-                    return Ok(Eval { violations: Vec::new(), outcome_kind: "skipped".into(), skipped: true });
-                }
-                Ok(Some(pr)) => probes.push(pr),
-                Ok(None) => {}
-            }
-        }
-    }
     stats.evaluations += 1;
-    let out = execute(tree, c);
-    *stats.outcomes.entry((c.op, out.kind.clone())).or_insert(0) += 1;
+    let out = execute(tree, c)?;
+    *stats.outcomes.entry(format!("{}|{}", c.op.as_str(), out.kind)).or_insert(0) += 1;
 
     let mut fast = tree.fast_check();
-    let mut host_created = Vec::new();
-    for pr in &probes {
-        if pr.symlink_metadata().is_ok() {
-            host_created.push(pr.clone());
-        }
-    }
-    let suspicious = !fast.clean() || !host_created.is_empty();
+    let suspicious = !fast.clean();
     let may_mutate = c.sess == Sess::Editor && (!c.op.has_we() || c.we);
 
     let mut vs: Vec<Violation> = Vec::new();
@@ -1172,7 +1324,7 @@ fn eval_case(tree: &mut Tree, c: &Case, replay: bool, stats: &mut Stats) -> Resu
         push("panic", &norm_msg(m), format!("the subject panicked: {m}"));
     }
 
-    // ---- write clauses (full snapshot only when needed)
+    // ---- write clauses
     let mut diff: Vec<(char, String, Zone)> = Vec::new();
     let mut after = Snapshot::new();
     // every time the detector fires (also for a legitimate editor change) the contents are compared
@@ -1180,20 +1332,21 @@ fn eval_case(tree: &mut Tree, c: &Case, replay: bool, stats: &mut Stats) -> Resu
     if take_full {
         stats.full_snapshots += 1;
         after = tree.snapshot();
-        diff = diff_snap(&tree.pristine, &after);
+        diff = diff_snap(tree.pristine(), &after);
     }
     let full_out = diff.iter().any(|d| d.2 == Zone::Outside);
     let full_hid = diff.iter().any(|d| d.2 == Zone::Hidden);
     let full_proj = diff.iter().any(|d| d.2 == Zone::Project);
-    if fast.out_w != 0 || full_out || !host_created.is_empty() {
-        let mut detail = format!("entries OUTSIDE the project directory changed: {}", describe_diff(&diff, Zone::Outside));
-        if fast.out_w != 0 {
-            detail.push_str(&format!(" [lstat differs: {}]", tree.names(fast.out_w)));
-        }
-        for h in &host_created {
-            detail.push_str(&format!(" [created on the host: {}]", h.display()));
-        }
-        push("escape-write", &feature(), detail);
+    if fast.out_w != 0 || full_out {
+        push(
+            "escape-write",
+            &feature(),
+            format!(
+                "entries OUTSIDE the project directory changed: {} [lstat differs: {}]",
+                describe_diff(&diff, Zone::Outside),
+                tree.names(fast.out_w)
+            ),
+        );
     }
     if fast.hid_w != 0 || full_hid {
         push(
@@ -1213,9 +1366,8 @@ fn eval_case(tree: &mut Tree, c: &Case, replay: bool, stats: &mut Stats) -> Resu
     // counts only if it re-appears in two more executions of the same case on freshly built trees.
     if tree.atime_ok && !c.op.is_picker() && (fast.out_r | fast.hid_r) != 0 {
         for _ in 0..2 {
-            remove_host_entries(&host_created);
             tree.build()?;
-            let _ = execute(tree, c);
+            let _ = execute(tree, c)?;
             let again = tree.fast_check();
             fast.out_r &= again.out_r;
             fast.hid_r &= again.hid_r;
@@ -1249,17 +1401,10 @@ fn eval_case(tree: &mut Tree, c: &Case, replay: bool, stats: &mut Stats) -> Resu
                 continue;
             }
             if let Ok(real) = tree.project.join(p).canonicalize() {
-                if !real.starts_with(&tree.canon_project) {
-                    let src = if real.starts_with(tree.outer.join("project2")) { "symlink-dir" } else { "parent-dir" };
+                if !real.starts_with(&tree.project) {
+                    let src = if real.starts_with(tree.top.join(P2_REL)) { "symlink-dir" } else { "parent-dir" };
                     esc.get_or_insert_with(|| {
-                        (
-                            src.to_string(),
-                            format!(
-                                "the answer lists {} which is {} outside the project",
-                                show(p),
-                                real.strip_prefix(&tree.top).unwrap_or(&real).display()
-                            ),
-                        )
+                        (src.to_string(), format!("the answer lists {} which is {} outside the project", show(p), real.display()))
                     });
                 }
             }
@@ -1277,14 +1422,7 @@ fn eval_case(tree: &mut Tree, c: &Case, replay: bool, stats: &mut Stats) -> Resu
         }
         // A directory that was *listed* (its own access time moved) was reached by a walk over the
         // workspace, not through the path argument: the cause is then the walk, whatever the path.
-        let listed = |rel: &str| {
-            tree.atime_dir_ok
-                && tree
-                    .watched
-                    .iter()
-                    .enumerate()
-                    .any(|(i, w)| w.rel == rel && (fast.out_r | fast.hid_r) & (1 << i) != 0)
-        };
+        let listed = |rel: &str| tree.atime_dir_ok && (fast.out_r | fast.hid_r) & tree.bit_of(rel) != 0;
         if let Some((src, detail)) = esc {
             let feat = if listed(P2_REL) { "symlink-dir".to_string() } else { plain_or(&src) };
             push("escape-read", &feat, detail);
@@ -1319,10 +1457,10 @@ fn eval_case(tree: &mut Tree, c: &Case, replay: bool, stats: &mut Stats) -> Resu
 
     // ---- bookkeeping
     if may_mutate && fast.proj_w != 0 {
-        *stats.editor_changes.entry(c.op).or_insert(0) += 1;
+        *stats.editor_changes.entry(c.op.as_str().to_string()).or_insert(0) += 1;
     }
     if c.sess == Sess::Viewer && out.kind == "ok" {
-        *stats.viewer_ok.entry(c.op).or_insert(0) += 1;
+        *stats.viewer_ok.entry(c.op.as_str().to_string()).or_insert(0) += 1;
     }
     if out.kind == "ok" || suspicious {
         stats.nontrivial += 1;
@@ -1330,121 +1468,12 @@ fn eval_case(tree: &mut Tree, c: &Case, replay: bool, stats: &mut Stats) -> Resu
     if suspicious || take_full {
         tree.dirty = true;
     }
-    let mut leftovers = host_created;
-    for pr in probes {
-        if !leftovers.contains(&pr) {
-            leftovers.push(pr);
-        }
-    }
-    remove_host_entries(&leftovers);
-    Ok(Eval { violations: vs, outcome_kind: out.kind, skipped: false })
+    Ok(Eval { violations: vs, outcome_kind: out.kind })
 }
 
 // -------------------------------------------------------------------------------------------------
-// replay
+// work units (executed by the jailed worker)
 // -------------------------------------------------------------------------------------------------
-
-/// Where the sentinel trees live. Creating and deleting files is ~20x faster on tmpfs than on the
-/// ext4 work directory (measured: 0.1 ms vs 2-20 ms per rebuild under load), and tens of thousands
-/// of rebuilds are needed, so `/dev/shm` is preferred when it is usable; `TV_C19_TREE_DIR`
-/// overrides; the fall-back is the engine's work directory (or the temp dir for a replay).
-fn tree_base(ctx: Option<&Ctx>) -> PathBuf {
-    let leaf = format!("tv-c19-confine-{}", std::process::id());
-    if let Ok(d) = std::env::var("TV_C19_TREE_DIR") {
-        if !d.is_empty() {
-            return PathBuf::from(d).join(leaf);
-        }
-    }
-    let shm = Path::new("/dev/shm");
-    if shm.is_dir() {
-        remove_stale_bases(shm);
-        let probe = shm.join(format!("{leaf}.probe"));
-        if std::fs::create_dir_all(&probe).is_ok() {
-            let _ = std::fs::remove_dir(&probe);
-            return shm.join(leaf);
-        }
-    }
-    match ctx {
-        Some(c) => c.work_dir().join("confine"),
-        None => std::env::temp_dir().join(leaf),
-    }
-}
-
-/// Removes tree directories left behind in `/dev/shm` by runs whose process no longer exists
-/// (a killed run cannot clean up after itself).
-fn remove_stale_bases(dir: &Path) {
-    let Ok(rd) = std::fs::read_dir(dir) else { return };
-    for e in rd.flatten() {
-        let name = e.file_name().to_string_lossy().to_string();
-        let Some(pid) = name.strip_prefix("tv-c19-confine-").and_then(|r| r.parse::<i32>().ok()) else { continue };
-        // SAFETY: signal 0 only tests for the existence of the process.
-        let alive = unsafe { libc::kill(pid, 0) } == 0 || std::io::Error::last_os_error().raw_os_error() != Some(libc::ESRCH);
-        if !alive {
-            let _ = std::fs::remove_dir_all(e.path());
-        }
-    }
-}
-
-pub fn check_case(case: &Value) -> Vec<Violation> {
-    if case["part"].as_str() != Some("confine") {
-        return Vec::new();
-    }
-    let Some(c) = Case::from_json(case) else { return Vec::new() };
-    let base = tree_base(None);
-    let mut stats = Stats::default();
-    let r = Tree::new(&base, c.layout).and_then(|mut t| eval_case(&mut t, &c, true, &mut stats));
-    let _ = std::fs::remove_dir(&base);
-    match r {
-        Ok(e) => e.violations,
-        Err(m) => vec![Violation {
-            signature: "C19/machinery/confine-replay".into(),
-            what: format!("replay could not be executed: {m}"),
-            case: case.clone(),
-        }],
-    }
-}
-
-// -------------------------------------------------------------------------------------------------
-// exploration
-// -------------------------------------------------------------------------------------------------
-
-struct Pool {
-    base: PathBuf,
-    free: Mutex<Vec<Tree>>,
-}
-
-impl Pool {
-    fn take(&self, layout: Layout) -> Result<Tree, String> {
-        {
-            let mut f = self.free.lock().unwrap();
-            if let Some(i) = f.iter().position(|t| t.layout == layout) {
-                return Ok(f.swap_remove(i));
-            }
-        }
-        Tree::new(&self.base, layout)
-    }
-    fn give(&self, t: Tree) {
-        self.free.lock().unwrap().push(t);
-    }
-}
-
-/// One unit of parallel work; units are ordered simplest first.
-enum Unit {
-    /// operations without a path argument, picker operations, analysis operations on `paths[range]`
-    Small(Vec<Case>),
-    /// single-path operations and rename_entry on `paths[lo..hi]`
-    Paths(usize, usize),
-    /// rename_entry with `singles[lo..hi]` as old path x every string of `singles` as new path
-    Pairs(usize, usize),
-}
-
-struct UnitOut {
-    stats: Stats,
-    /// signature -> (count, first violation)
-    viol: Vec<(String, u64, Violation)>,
-    samples: Vec<Value>,
-    rebuilds: u64,
-}
 
 const SINGLE_PATH_OPS: &[Op] = &[Op::Open, Op::Format, Op::CreateFile, Op::CreateDir, Op::Apply, Op::Delete];
 const ANALYSIS_OPS: &[Op] =
@@ -1480,9 +1509,8 @@ fn cases_for_path(p: &str, out: &mut Vec<Case>) {
     }
 }
 
-fn small_units(analysis_paths: &[String]) -> Vec<Unit> {
-    let mut units = Vec::new();
-    // (D) operations without a path argument + the project picker
+/// (D) operations without a path argument + the project picker
+fn nopath_cases() -> Vec<Case> {
     let mut v = Vec::new();
     for layout in [Layout::Full, Layout::NoLink] {
         for &sess in SESSIONS {
@@ -1497,40 +1525,64 @@ fn small_units(analysis_paths: &[String]) -> Vec<Unit> {
             for q in ["", "zq", "ZqOut"] {
                 v.push(mk(Op::WorkspaceSymbols, q, ""));
             }
-            for p in ["{PROJECT}", "{OUTER}", "{PROJECT}/link", "{PROJECT}/.hidden", "{PROJECT}/..", "{PROJECT}/main.st", "/nonexistent-c19"] {
+            let picks = [
+                PROJECT_ABS.to_string(),
+                OUTER_ABS.to_string(),
+                format!("{PROJECT_ABS}/link"),
+                format!("{PROJECT_ABS}/.hidden"),
+                format!("{PROJECT_ABS}/.."),
+                format!("{PROJECT_ABS}/main.st"),
+                "/".to_string(),
+                "/etc".to_string(),
+                "/nonexistent-c19".to_string(),
+            ];
+            for p in &picks {
                 v.push(mk(Op::Browse, p, ""));
                 v.push(mk(Op::SetActiveProject, p, ""));
             }
         }
     }
-    units.push(Unit::Small(v));
-    // (C) analysis operations (heavier): reduced path list, both layouts
-    for chunk in analysis_paths.chunks(24) {
-        let mut v = Vec::new();
-        for p in chunk {
-            for layout in [Layout::Full, Layout::NoLink] {
-                for &op in ANALYSIS_OPS {
-                    for &sess in SESSIONS {
-                        let wes: &[bool] = if op.has_we() { &[true, false] } else { &[true] };
-                        for &we in wes {
-                            v.push(Case { op, p1: p.clone(), p2: String::new(), sess, we, layout });
-                        }
+    v
+}
+
+/// (C) analysis operations (heavier): both layouts, grouped by layout (a layout switch rebuilds)
+fn analysis_cases(paths: &[String]) -> Vec<Case> {
+    let mut v = Vec::new();
+    for layout in [Layout::Full, Layout::NoLink] {
+        for p in paths {
+            for &op in ANALYSIS_OPS {
+                for &sess in SESSIONS {
+                    let wes: &[bool] = if op.has_we() { &[true, false] } else { &[true] };
+                    for &we in wes {
+                        v.push(Case { op, p1: p.clone(), p2: String::new(), sess, we, layout });
                     }
                 }
             }
         }
-        units.push(Unit::Small(v));
     }
-    units
+    v
 }
 
-fn run_unit(pool: &Pool, paths: &[String], singles: &[String], unit: &Unit, want_samples: bool) -> Result<UnitOut, String> {
-    let mut cases: Vec<Case> = Vec::new();
-    match unit {
-        Unit::Small(v) => cases.extend(v.iter().cloned()),
-        Unit::Pairs(lo, hi) => {
-            for old in &singles[*lo..*hi] {
-                for new in singles {
+fn strs(v: &Value) -> Vec<String> {
+    v.as_array()
+        .map(|a| a.iter().filter_map(|s| s.as_str().map(str::to_string)).collect())
+        .unwrap_or_default()
+}
+
+fn unit_cases(unit: &Value) -> Vec<Case> {
+    let mut cases = Vec::new();
+    match unit["kind"].as_str() {
+        Some("nopath") => cases = nopath_cases(),
+        Some("analysis") => cases = analysis_cases(&strs(&unit["paths"])),
+        Some("paths") => {
+            for p in strs(&unit["paths"]) {
+                cases_for_path(&p, &mut cases);
+            }
+        }
+        Some("pairs") => {
+            let news = strs(&unit["news"]);
+            for old in strs(&unit["olds"]) {
+                for new in &news {
                     for &sess in SESSIONS {
                         for we in [true, false] {
                             cases.push(Case { op: Op::Rename, p1: old.clone(), p2: new.clone(), sess, we, layout: Layout::Full });
@@ -1539,124 +1591,320 @@ fn run_unit(pool: &Pool, paths: &[String], singles: &[String], unit: &Unit, want
                 }
             }
         }
-        Unit::Paths(lo, hi) => {
-            for p in &paths[*lo..*hi] {
-                cases_for_path(p, &mut cases);
-            }
-        }
+        _ => {}
     }
-    let mut out = UnitOut { stats: Stats::default(), viol: Vec::new(), samples: Vec::new(), rebuilds: 0 };
+    cases
+}
+
+fn viol_json(v: &Violation) -> Value {
+    json!({"signature": v.signature, "what": v.what, "case": v.case})
+}
+
+fn viol_from(v: &Value) -> Violation {
+    Violation {
+        signature: v["signature"].as_str().unwrap_or("C19/machinery/garbled").to_string(),
+        what: v["what"].as_str().unwrap_or("").to_string(),
+        case: v["case"].clone(),
+    }
+}
+
+fn run_unit(tree: &mut Tree, unit: &Value) -> Result<Value, String> {
+    let cases = unit_cases(unit);
+    let want_samples = unit["sample"].as_bool().unwrap_or(false);
+    let mut stats = Stats::default();
+    let mut viol: Vec<(u64, Violation)> = Vec::new();
     let mut index: BTreeMap<String, usize> = BTreeMap::new();
-    let mut trees: Vec<Tree> = Vec::new();
+    let mut samples: Vec<Value> = Vec::new();
     for c in &cases {
-        let ti = match trees.iter().position(|t| t.layout == c.layout) {
-            Some(i) => i,
-            None => {
-                trees.push(pool.take(c.layout)?);
-                trees.len() - 1
-            }
-        };
-        let e = eval_case(&mut trees[ti], c, false, &mut out.stats)?;
-        if want_samples && !e.skipped && out.samples.len() < 2 && e.outcome_kind == "ok" && c.sess == Sess::Editor && c.op.has_we() {
+        let e = eval_case(tree, c, false, &mut stats)?;
+        if want_samples && samples.len() < 2 && e.outcome_kind == "ok" && c.sess == Sess::Editor && c.op.has_we() {
             let mut j = c.to_json();
             j["outcome"] = json!(e.outcome_kind);
-            out.samples.push(j);
+            samples.push(j);
         }
         for v in e.violations {
             match index.get(&v.signature) {
-                Some(&i) => out.viol[i].1 += 1,
+                Some(&i) => viol[i].0 += 1,
                 None => {
-                    index.insert(v.signature.clone(), out.viol.len());
-                    out.viol.push((v.signature.clone(), 1, v));
+                    index.insert(v.signature.clone(), viol.len());
+                    viol.push((1, v));
                 }
             }
         }
     }
-    // cross-check of the change detector: after a rebuild-if-dirty the tree must equal the pristine snapshot
-    for mut t in trees {
-        t.ensure_pristine()?;
-        let f = t.fast_check();
-        if f.out_w | f.hid_w | f.proj_w != 0 {
-            return Err(format!("change detector fires on a freshly built / untouched tree: {}", t.names(f.out_w | f.hid_w | f.proj_w)));
-        }
-        let snap = t.snapshot();
-        if snap != t.pristine {
-            let d = diff_snap(&t.pristine, &snap);
-            return Err(format!(
-                "the lstat change detector missed a change that the full snapshot sees: {:?}",
-                d.iter().take(3).map(|x| format!("{}{}", x.0, x.1)).collect::<Vec<_>>()
-            ));
-        }
-        t.dirty = true; // the snapshot read the sentinel files
-        out.rebuilds += t.rebuilds;
-        t.rebuilds = 0;
-        pool.give(t);
+    // cross-check of the change detector: an un-dirty tree must equal the pristine snapshot
+    tree.ensure_pristine()?;
+    let f = tree.fast_check();
+    if f.out_w | f.hid_w | f.proj_w != 0 {
+        return Err(format!("change detector fires on a freshly built / untouched tree: {}", tree.names(f.out_w | f.hid_w | f.proj_w)));
     }
-    Ok(out)
+    let snap = tree.snapshot();
+    if &snap != tree.pristine() {
+        let d = diff_snap(tree.pristine(), &snap);
+        return Err(format!(
+            "the lstat change detector missed a change that the full snapshot sees: {:?}",
+            d.iter().take(3).map(|x| format!("{}{}", x.0, x.1)).collect::<Vec<_>>()
+        ));
+    }
+    tree.dirty = true; // the snapshot read the sentinel files
+    let rebuilds = tree.rebuilds;
+    tree.rebuilds = 0;
+    // SAFETY: getter without arguments.
+    let uid = unsafe { libc::geteuid() };
+    Ok(json!({
+        "stats": stats.to_json(),
+        "viol": viol.iter().map(|(n, v)| json!({"n": n, "v": viol_json(v)})).collect::<Vec<_>>(),
+        "samples": samples,
+        "rebuilds": rebuilds,
+        "atime": tree.atime_ok && tree.atime_dir_ok,
+        "uid": uid,
+    }))
+}
+
+static TREE: Mutex<Option<Tree>> = Mutex::new(None);
+
+/// Worker entry (`tv --worker c19_confine`). Request: {"kind": "nopath" | "analysis" | "paths" |
+/// "pairs" | "replay", …}. Reply: {"error": "…"} (machinery) or the unit's result. The jail is
+/// entered before the first request is looked at.
+pub fn worker_confine(req: &Value) -> Value {
+    let base = std::env::var(ENV_JAIL_BASE).unwrap_or_default();
+    if let Err(e) = enter_jail(&base) {
+        return json!({ "error": e });
+    }
+    let mut guard = TREE.lock().unwrap_or_else(|p| p.into_inner());
+    if guard.is_none() {
+        match Tree::new() {
+            Ok(t) => *guard = Some(t),
+            Err(e) => return json!({ "error": e }),
+        }
+    }
+    let tree = guard.as_mut().expect("tree");
+    if let Err(e) = still_jailed() {
+        return json!({ "error": e });
+    }
+    if req["kind"] == "probe" {
+        // what the jailed process can see and do (recorded in the evidence)
+        let mut root_entries: Vec<String> =
+            std::fs::read_dir("/").map(|rd| rd.flatten().map(|e| e.file_name().to_string_lossy().to_string()).collect()).unwrap_or_default();
+        root_entries.sort();
+        let climb = std::fs::canonicalize("/../../../..").map(|p| p.display().to_string()).unwrap_or_default();
+        // SAFETY: getters without arguments.
+        let (uid, gid) = unsafe { (libc::geteuid(), libc::getegid()) };
+        tree.dirty = true;
+        return json!({
+            "uid": uid, "gid": gid,
+            "cwd": std::env::current_dir().map(|p| p.display().to_string()).unwrap_or_default(),
+            "root_entries": root_entries,
+            "slash_dotdot_resolves_to": climb,
+            "decoy_passwd": std::fs::read_to_string("/etc/passwd").unwrap_or_default().trim().to_string(),
+        });
+    }
+    if req["kind"] == "replay" {
+        let Some(c) = Case::from_json(&req["case"]) else { return json!({"error": "replay: not a confinement case"}) };
+        let mut stats = Stats::default();
+        return match eval_case(tree, &c, true, &mut stats) {
+            Ok(e) => {
+                tree.dirty = true;
+                json!({"viol": e.violations.iter().map(viol_json).collect::<Vec<_>>()})
+            }
+            Err(e) => json!({ "error": e }),
+        };
+    }
+    match run_unit(tree, req) {
+        Ok(v) => v,
+        Err(e) => json!({ "error": e }),
+    }
+}
+
+pub fn workers() -> Vec<(&'static str, WorkerFn)> {
+    vec![(WORKER, worker_confine as WorkerFn)]
+}
+
+// -------------------------------------------------------------------------------------------------
+// parent side: pool, replay, exploration
+// -------------------------------------------------------------------------------------------------
+
+/// Removes jail directories left behind in `dir` by runs whose process no longer exists.
+fn remove_stale_bases(dir: &Path) {
+    let Ok(rd) = std::fs::read_dir(dir) else { return };
+    for e in rd.flatten() {
+        let name = e.file_name().to_string_lossy().to_string();
+        let Some(pid) = name.strip_prefix("tv-c19-confine-").and_then(|r| r.parse::<i32>().ok()) else { continue };
+        // SAFETY: signal 0 only tests for the existence of the process.
+        let alive = unsafe { libc::kill(pid, 0) } == 0 || std::io::Error::last_os_error().raw_os_error() != Some(libc::ESRCH);
+        if !alive && e.file_type().map(|t| t.is_dir()).unwrap_or(false) {
+            let _ = std::fs::remove_dir_all(e.path());
+        }
+    }
+}
+
+/// Directory under which the workers create their jails. tmpfs is ~20x faster than the ext4 work
+/// directory for the tens of thousands of tree rebuilds, so `/dev/shm` is preferred when usable;
+/// `TV_C19_TREE_DIR` overrides; the fall-back is the engine's work directory (temp dir for a replay).
+fn jail_base(ctx: Option<&Ctx>) -> PathBuf {
+    let leaf = format!("tv-c19-confine-{}", std::process::id());
+    if let Ok(d) = std::env::var("TV_C19_TREE_DIR") {
+        if !d.is_empty() {
+            return PathBuf::from(d).join(leaf);
+        }
+    }
+    let shm = Path::new("/dev/shm");
+    if shm.is_dir() {
+        remove_stale_bases(shm);
+        let probe = shm.join(format!("{leaf}.probe"));
+        if std::fs::create_dir_all(&probe).is_ok() {
+            let _ = std::fs::remove_dir(&probe);
+            return shm.join(leaf);
+        }
+    }
+    match ctx {
+        Some(c) => c.work_dir().join("confine"),
+        None => std::env::temp_dir().join(leaf),
+    }
+}
+
+fn pool_cfg(base: &Path, procs: usize, deadline: Option<Instant>) -> PoolCfg {
+    PoolCfg {
+        worker: WORKER,
+        procs,
+        rlimit_as: 0,
+        per_case: Duration::from_secs(300),
+        deadline,
+        env: vec![(ENV_JAIL_BASE.to_string(), base.to_string_lossy().to_string())],
+        stack: 8 << 20,
+    }
+}
+
+/// Removes the jails of this run (parent side, after the workers are gone). `remove_dir_all` does
+/// not follow symbolic links, and only our own freshly created directory is named.
+fn remove_base(base: &Path) {
+    if base.file_name().map(|n| n.to_string_lossy().starts_with("tv-c19-confine-") || n == "confine").unwrap_or(false) {
+        let _ = std::fs::remove_dir_all(base);
+    }
+}
+
+pub fn check_case(case: &Value) -> Vec<Violation> {
+    if case["part"].as_str() != Some("confine") {
+        return Vec::new();
+    }
+    let mach = |m: String| {
+        vec![Violation {
+            signature: "C19/machinery/confine-replay".into(),
+            what: format!("replay could not be executed: {m}"),
+            case: case.clone(),
+        }]
+    };
+    let base = jail_base(None);
+    if let Err(e) = std::fs::create_dir_all(&base) {
+        return mach(format!("cannot create {}: {e}", base.display()));
+    }
+    let cfg = pool_cfg(&base, 1, None);
+    let r = {
+        let mut w = iso::Worker::new(&cfg);
+        w.call(&json!({"kind": "replay", "case": case}))
+    };
+    remove_base(&base);
+    match r {
+        Ok(iso::Outcome::Ok(v)) => {
+            if let Some(e) = v["error"].as_str() {
+                return mach(e.to_string());
+            }
+            v["viol"].as_array().map(|a| a.iter().map(viol_from).collect()).unwrap_or_default()
+        }
+        Ok(other) => mach(format!("jailed worker: {other:?}")),
+        Err(e) => mach(e),
+    }
 }
 
 pub fn run_part(ctx: &Ctx, rep: &mut Report) -> Result<(), Machinery> {
-    quiet_panics();
     let t0 = Instant::now();
     let deadline = t0 + Duration::from_secs(ctx.tier.pick(20, 420));
-    let base = tree_base(Some(ctx));
+    let base = jail_base(Some(ctx));
     std::fs::create_dir_all(&base).map_err(|e| Machinery(format!("confine: cannot create {base:?}: {e}")))?;
-    let pool = Pool { base: base.clone(), free: Mutex::new(Vec::new()) };
 
-    // path strings: all sequences of <= 3 components (thorough: 4); the deepest level uses the core menu
+    // path strings: all sequences of <= 3 components (thorough: 4); the deepest level uses a menu prefix
     let levels: Vec<usize> = ctx.tier.pick(vec![FULL, FULL, CORE], vec![FULL, FULL, FULL, GIVEN]);
-    let paths = path_strings(&levels);
+    let paths = path_strings(&levels, true);
     let analysis_levels: Vec<usize> = ctx.tier.pick(vec![FULL, CORE], vec![FULL, FULL]);
-    let analysis_paths: Vec<String> = path_strings(&analysis_levels);
-
+    let analysis_paths: Vec<String> = path_strings(&analysis_levels, true);
     // rename_entry with the (one-component) menu on BOTH arguments
-    let singles: Vec<String> = path_strings(&levels[..1]);
-    let mut units = small_units(&analysis_paths);
-    for lo in (0..singles.len()).step_by(4) {
-        units.push(Unit::Pairs(lo, (lo + 4).min(singles.len())));
+    let singles: Vec<String> = path_strings(&levels[..1], true);
+
+    // work units, simplest first
+    let mut units: Vec<Value> = vec![json!({"kind": "probe"}), json!({"kind": "nopath"})];
+    for chunk in analysis_paths.chunks(24) {
+        units.push(json!({"kind": "analysis", "paths": chunk}));
     }
-    let small_count = units.len();
-    let chunk = 48usize;
-    let mut lo = 0;
-    while lo < paths.len() {
-        let hi = (lo + chunk).min(paths.len());
-        units.push(Unit::Paths(lo, hi));
-        lo = hi;
+    for chunk in singles.chunks(4) {
+        units.push(json!({"kind": "pairs", "olds": chunk, "news": singles}));
+    }
+    let first_paths_unit = units.len();
+    for chunk in paths.chunks(48) {
+        units.push(json!({"kind": "paths", "paths": chunk}));
+    }
+    if let Some(u) = units.get_mut(first_paths_unit + 3) {
+        u["sample"] = json!(true);
     }
 
-    let res = par_map(&units, ctx.threads, 4 << 20, Some(deadline), |i, u| run_unit(&pool, &paths, &singles, u, i == small_count + 3));
+    let cfg = pool_cfg(&base, ctx.threads, Some(deadline));
+    let res = iso::run_pool(&cfg, &units);
+    remove_base(&base);
+    let res = res.map_err(|e| Machinery(format!("confine: {e}")))?;
 
     let mut stats = Stats::default();
     let mut exhaustive = true;
     let mut done_units = 0usize;
     let mut rebuilds = 0u64;
     let mut paths_done = 0usize;
+    let mut atime_ok = true;
     for (u, r) in units.iter().zip(res) {
-        match r {
-            Some(Ok(o)) => {
-                done_units += 1;
-                stats.merge(o.stats);
-                rebuilds += o.rebuilds;
-                if let Unit::Paths(lo, hi) = u {
-                    paths_done += hi - lo;
-                }
-                for s in o.samples {
-                    rep.sample(s);
-                }
-                for (sig, n, v) in o.viol {
-                    rep.violation(v);
-                    if n > 1 {
-                        *rep.violation_counts.entry(sig).or_insert(0) += n - 1;
-                    }
-                }
+        let v = match r {
+            Some(iso::Outcome::Ok(v)) => v,
+            Some(other) => {
+                return machinery(format!(
+                    "confine: the jailed worker did not answer a {} unit: {other:?}",
+                    u["kind"].as_str().unwrap_or("?")
+                ))
             }
-            Some(Err(m)) => return machinery(format!("confine: {m}")),
-            None => exhaustive = false,
+            None => {
+                exhaustive = false;
+                continue;
+            }
+        };
+        if let Some(e) = v["error"].as_str() {
+            return machinery(format!("confine: {e}"));
+        }
+        if v["uid"].as_u64() != Some(NOBODY as u64) {
+            return machinery("confine: a worker answered without having dropped privileges");
+        }
+        if u["kind"] == "probe" {
+            let entries = strs(&v["root_entries"]);
+            if entries != ["etc", "g5"] || v["slash_dotdot_resolves_to"] != "/" || !v["decoy_passwd"].as_str().unwrap_or("").starts_with("ZQOUTETCPASSWD") {
+                return machinery(format!("confine: the jail does not look like a jail: {v}"));
+            }
+            rep.set("confine_jail_probe", v);
+            continue;
+        }
+        done_units += 1;
+        stats.merge_json(&v["stats"]);
+        rebuilds += v["rebuilds"].as_u64().unwrap_or(0);
+        atime_ok &= v["atime"].as_bool().unwrap_or(false);
+        if u["kind"] == "paths" {
+            paths_done += u["paths"].as_array().map(|a| a.len()).unwrap_or(0);
+        }
+        for s in v["samples"].as_array().cloned().unwrap_or_default() {
+            rep.sample(s);
+        }
+        for e in v["viol"].as_array().cloned().unwrap_or_default() {
+            let n = e["n"].as_u64().unwrap_or(1);
+            let viol = viol_from(&e["v"]);
+            let sig = viol.signature.clone();
+            rep.violation(viol);
+            if n > 1 {
+                *rep.violation_counts.entry(sig).or_insert(0) += n - 1;
+            }
         }
     }
-    let atime_ok = pool.free.lock().unwrap().iter().all(|t| t.atime_ok && t.atime_dir_ok);
-    drop(pool);
-    let _ = std::fs::remove_dir_all(&base);
 
     if !exhaustive {
         rep.cap(format!(
@@ -1668,7 +1916,7 @@ pub fn run_part(ctx: &Ctx, rep: &mut Report) -> Result<(), Machinery> {
 
     // ---- vacuity checks: the mutating operations must really mutate for an editor, the read side must answer
     for op in [Op::CreateFile, Op::CreateDir, Op::Apply, Op::Delete, Op::Rename, Op::RenameSymbol] {
-        if stats.editor_changes.get(&op).copied().unwrap_or(0) == 0 {
+        if stats.editor_changes.get(op.as_str()).copied().unwrap_or(0) == 0 {
             return machinery(format!(
                 "confine: vacuous — no {} by an editor with write access changed the project tree",
                 op.as_str()
@@ -1676,25 +1924,17 @@ pub fn run_part(ctx: &Ctx, rep: &mut Report) -> Result<(), Machinery> {
         }
     }
     for op in [Op::ListSources, Op::ListTree, Op::Search, Op::Open, Op::Format, Op::FileSymbols, Op::WorkspaceSymbols] {
-        if stats.viewer_ok.get(&op).copied().unwrap_or(0) == 0 {
+        if stats.viewer_ok.get(op.as_str()).copied().unwrap_or(0) == 0 {
             return machinery(format!("confine: vacuous — no {} of a viewer session was answered", op.as_str()));
         }
     }
 
     let mut outcomes = serde_json::Map::new();
-    let mut distinct_outcomes = 0u64;
-    for ((op, kind), n) in &stats.outcomes {
-        let e = outcomes.entry(op.as_str().to_string()).or_insert_with(|| json!({}));
-        e[kind.as_str()] = json!(n);
-        distinct_outcomes += 1;
+    for (k, n) in &stats.outcomes {
+        let (op, kind) = k.split_once('|').unwrap_or((k.as_str(), "?"));
+        let e = outcomes.entry(op.to_string()).or_insert_with(|| json!({}));
+        e[kind] = json!(n);
     }
-    let per_op = |m: &BTreeMap<Op, u64>| {
-        let mut o = serde_json::Map::new();
-        for (k, v) in m {
-            o.insert(k.as_str().to_string(), json!(v));
-        }
-        Value::Object(o)
-    };
     rep.add("confine_evaluations", stats.evaluations);
     rep.add("confine_distinct_nontrivial", stats.nontrivial);
     rep.set("confine_path_strings", paths.len() as u64);
@@ -1703,24 +1943,26 @@ pub fn run_part(ctx: &Ctx, rep: &mut Report) -> Result<(), Machinery> {
     rep.set("confine_analysis_path_strings", analysis_paths.len() as u64);
     rep.set("confine_max_components", levels.len() as u64);
     rep.set("confine_menu_sizes_per_length", json!(levels));
+    rep.set("confine_distinct_outcomes", stats.outcomes.len() as u64);
     rep.set("confine_outcomes", Value::Object(outcomes));
-    rep.set("confine_distinct_outcomes", distinct_outcomes);
-    rep.set("confine_editor_changes_by_op", per_op(&stats.editor_changes));
-    rep.set("confine_viewer_answers_by_op", per_op(&stats.viewer_ok));
+    rep.set("confine_editor_changes_by_op", map_to_json(&stats.editor_changes));
+    rep.set("confine_viewer_answers_by_op", map_to_json(&stats.viewer_ok));
     rep.set("confine_tree_rebuilds", rebuilds);
     rep.set("confine_full_snapshots", stats.full_snapshots);
     rep.set("confine_access_time_confirmation_runs", stats.confirm_runs);
-    rep.set("confine_skipped_by_host_guard", stats.skipped_host_guard);
-    rep.set("confine_tree_dir", base.to_string_lossy().to_string());
+    rep.set("confine_jail", "every case ran in a child process chroot-ed into a private directory as uid/gid 65534 (verified per work unit)");
+    rep.set("confine_skipped_by_string_guard", 0u64);
+    rep.set("confine_jail_dir", base.to_string_lossy().to_string());
     rep.set("confine_read_detector", if atime_ok { "results+access-times" } else { "results-only" });
     rep.set("confine_exhaustive", exhaustive);
     rep.set("confine_wall_s", t0.elapsed().as_secs_f64());
     rep.set(
         "confine_rule",
-        "path strings = every sequence of <= N components over a 17-entry menu (a 10-entry (quick) / 14-entry (thorough) prefix of it at the deepest length) joined with '/', '//', '\\', each plain and with one decoration (trailing '/', './', surrounding spaces, leading '/', absolute prefix of the sentinel directory, 'C:\\', %2e%2e, NUL), de-duplicated; each string x {open, format, create file, create dir, apply, delete} x {editor, viewer, unknown token} x write_enabled {true,false} (where the call has the flag), rename_entry with the string as old path x 2 new paths and as new path x 3 old paths, plus every pair of one-component strings; analysis calls (file_symbols, diagnostics, hover, completion, definition, references, rename_symbol) on the shorter path list in two tree layouts; list/tree/search/symbols/picker calls per session and layout. Every case runs on a pristine sentinel tree and a fresh WebIdeState. distinct_nontrivial = cases (all distinct tuples) that were answered Ok or had any file-system effect.",
+        "path strings = every sequence of <= N components over a 17-entry menu (a 10-entry (quick) / 14-entry (thorough) prefix of it at the deepest length) joined with '/', '//', '\\', each plain and with one decoration (trailing '/', './', surrounding spaces, leading '/', absolute prefix of the sentinel directory, 'C:\\', %2e%2e, NUL), plus hand-picked strings aiming at the jail root and the decoy /etc, de-duplicated; each string x {open, format, create file, create dir, apply, delete} x {editor, viewer, unknown token} x write_enabled {true,false} (where the call has the flag), rename_entry with the string as old path x 2 new paths and as new path x 3 old paths, plus every pair of one-component strings; analysis calls (file_symbols, diagnostics, hover, completion, definition, references, rename_symbol) on the shorter path list in two tree layouts; list/tree/search/symbols/picker calls per session and layout. Every case runs inside a chroot jail (uid 65534) on a pristine sentinel tree and a fresh WebIdeState. distinct_nontrivial = cases (all distinct tuples) that were answered Ok or had any file-system effect.",
     );
     rep.assume("confine: expired sessions cannot be produced through the public API (with_clock is cfg(test), TTL and clock are fixed); a never-issued token stands in for an expired-and-pruned one");
     rep.assume("confine: reads are observed through returned data and, where the file system maintains them, access times; stat-like probes of outside entries are invisible");
     rep.assume("confine: browse_directory/set_active_project (documented project picker) are only required not to write");
+    rep.assume("confine: needs root (chroot + setuid 65534); if the jail cannot be entered the part fails with a machinery error instead of running un-jailed");
     Ok(())
 }
